@@ -26,6 +26,14 @@ pub struct PeerId { pub v: u64 }
 pub struct Hash { pub v: u64 }
 pub enum Event { AddPeers(Vec<PeerId>), BlockPeers(Vec<PeerId>) }
 #[derive(Debug)]
+pub struct StoreError {}
+pub enum HeaderTaskError { Timeout(u64), StoreError { height: u64, source: StoreError } }
+pub struct ExtendedHeader { pub h: u64, pub data_hash: Option<Hash> }
+impl ExtendedHeader {
+    #[verifier::external_body]
+    pub fn height(&self) -> (r: u64) ensures r == self.h { unimplemented!() }
+}
+#[derive(Debug)]
 pub enum GetPoolError { CandidatesNotValidated, HeightTooOld, HeightNotTracked }
 // VecDeque<Event>
 pub struct Events { pub g: Ghost<Seq<Event>> }
@@ -248,7 +256,7 @@ impl PoolTracker {
 //@sub E9 "candidates.remove(&data_hash).unwrap_or_default()" => "vx_unwrap_or_empty(candidates.remove(&data_hash))"
 //@sub E9 "validated_peers.clone()" => "vx_clone_peers(&validated_peers)"
 //@sub E8 "candidates .values() .flat_map(|pool| pool.iter().cloned()) .collect()" => "vx_all_peers(candidates)"
-//@hint before "if !bad_peers.is_empty() {"
+//@hint before "trace!("
                     let ghost others = candidates@;
                     proof {
                         let any_other = exists|h: Hash| others.contains_key(h) && (#[trigger] others[h]).len() > 0;
@@ -320,6 +328,51 @@ impl PoolTracker {
 //@hint exit
         proof { lemma_evict_inv(*old(self), *self); }
 //@end
+
+//@fn impl<S> PoolTracker<S> :: poll
+//@props C40
+//@block "Err(HeaderTaskError::Timeout(height)) => {"
+    // the header of a tracked height did not arrive in time: the pool is dropped and its voters are blocked
+    fn poll__on_timeout(&mut self, height: u64)
+        requires old(self).inv()
+        ensures
+            final(self).inv(), final(self).ann == old(self).ann, final(self).subjective_head == old(self).subjective_head,
+            final(self).hash_pools@ == old(self).hash_pools@.remove(height), final(self).validated_pools == old(self).validated_pools,
+            (old(self).hash_pools@.contains_key(height) && old(self).hash_pools@[height] is Candidates) ==>
+                final(self).pending_events@.len() == old(self).pending_events@.len() + 1 && final(self).pending_events@.last() is BlockPeers
+                && final(self).pending_events@.last()->BlockPeers_0@.to_set() == old(self).hash_pools@[height]->Candidates_0.0@,
+//@sub E8 "peers.into_iter().collect()" => "vx_voters(peers)"
+//@sub E11 "continue;" => "return;"
+//@hint before "continue;"
+                    proof { lemma_evict_inv(*old(self), *self); }
+//@end
+
+//@fn impl<S> PoolTracker<S> :: poll
+//@props C40
+//@block "Err(HeaderTaskError::StoreError { height, source }) => {"
+    fn poll__on_store_error(&mut self, height: u64, source: StoreError)
+        requires old(self).inv()
+        ensures
+            final(self).inv(), final(self).ann == old(self).ann, final(self).subjective_head == old(self).subjective_head,
+            final(self).hash_pools@ == old(self).hash_pools@.remove(height), final(self).validated_pools == old(self).validated_pools, final(self).pending_events == old(self).pending_events,
+//@sub E11 "continue;" => "return;"
+//@hint before "continue;"
+                    proof { lemma_evict_inv(*old(self), *self); }
+//@end
+
+//@fn impl<S> PoolTracker<S> :: poll
+//@props C40
+//@span "let height = header.height();" "self.validate_pool(data_hash, height);"
+    // a header arrived from the store: the subjective head moves, the height's pool is validated with the header's hash
+    fn poll__on_header(&mut self, header: ExtendedHeader)
+        requires old(self).inv(), hashes_differ(), header.data_hash == Some(stored_hash(header.h))
+        ensures
+            final(self).inv(), final(self).ann == old(self).ann,
+            final(self).subjective_head.is_some() && final(self).subjective_head.unwrap() >= header.h,
+            // the height's pool (if still tracked) is validated now
+            final(self).hash_pools@.contains_key(header.h) ==> final(self).hash_pools@[header.h] is Validated,
+//@sub E9 "header .header .data_hash .expect(\"headers from store must pass validate\")" => "header.data_hash.unwrap()"
+//@end
 }
 
 // what validate_pool reports about the losers: one BlockPeers event with every peer under another hash (if there is one),
@@ -377,8 +430,8 @@ pub proof fn lemma_same_inv(a: PoolTracker, b: PoolTracker)
 // eviction: a sub-map of the pools whose validated heights kept their lists, under a head that makes every kept height fresh
 pub proof fn lemma_evict_inv(a: PoolTracker, b: PoolTracker)
     requires
-        a.inv(), b.ann == a.ann, b.subjective_head.is_some(),
-        forall|h: u64| #![trigger b.hash_pools@.contains_key(h)] b.hash_pools@.contains_key(h) ==> a.hash_pools@.contains_key(h) && b.hash_pools@[h] == a.hash_pools@[h] && h > stale_of(b.subjective_head.unwrap()),
+        a.inv(), b.ann == a.ann,
+        forall|h: u64| #![trigger b.hash_pools@.contains_key(h)] b.hash_pools@.contains_key(h) ==> a.hash_pools@.contains_key(h) && b.hash_pools@[h] == a.hash_pools@[h] && b.subjective_head.is_some() && h > stale_of(b.subjective_head.unwrap()),
         forall|x: Hash| #![trigger b.validated_pools@.contains_key(x)] b.validated_pools@.contains_key(x) ==> a.validated_pools@.contains_key(x) && b.validated_pools@[x] == a.validated_pools@[x],
         forall|h: u64| #![trigger a.hash_pools@[h]] b.hash_pools@.contains_key(h) && a.hash_pools@[h] is Validated ==> b.validated_pools@.contains_key(a.hash_pools@[h]->Validated_0),
     ensures b.inv()
